@@ -403,13 +403,14 @@ func encView(h *api.HyperNodesInfo) []int64 {
 // what happened during a history (used for the order-dependence flag and for
 // the signatures of the documented findings)
 type flags struct {
-	amb            bool // Go map order may matter: compared by the laws only
-	sawNotReady    bool // Ready() was false after some event
-	selStale       bool // D2: a node event the cache does not propagate to a HyperNode whose selector matches the node
-	deletedClaimed bool // D5: a HyperNode was deleted while another one still listed it as a member
-	failedDelete   bool // D6: a DeleteHyperNode returned an error (the entry stays, marked as being deleted)
-	foreignReset   bool // D9: an update / delete released a member whose Parent pointer named another HyperNode
-	tierInversion  bool // D7: at some point a stored HyperNode claimed a member whose tier is not below its own
+	amb                  bool // Go map order may matter: compared by the laws only
+	sawNotReady          bool // Ready() was false after some event
+	selStale             bool // D2: a node event the cache does not propagate to a HyperNode whose selector matches the node
+	deletedClaimed       bool // D5: a HyperNode was deleted while another one still listed it as a member
+	failedDelete         bool // D6: a DeleteHyperNode returned an error (the entry stays, marked as being deleted)
+	foreignReset         bool // D9: an update / delete released a member whose Parent pointer named another HyperNode
+	arrivesDoublyClaimed bool // D15: an object arrived for a name that two or more stored HyperNodes list
+	tierInversion        bool // D7: at some point a stored HyperNode claimed a member whose tier is not below its own
 }
 
 // selStale (finding D2): node event for n, and some stored HyperNode that has BOTH HyperNode
@@ -469,6 +470,23 @@ func runHistory(w *world, evs []event, obs func(i int, s *sut)) (s *sut, fl flag
 	s = newSut(w, w.nodes)
 	for i, ev := range evs {
 		before := s.hni.HyperNodes()
+		if ev.kind == 0 {
+			n := 0
+			for name, info := range before {
+				if name == hnName(ev.obj.name) || info.HyperNode == nil {
+					continue
+				}
+				for _, m := range info.HyperNode.Spec.Members {
+					if m.Type == topologyv1alpha1.MemberTypeHyperNode && m.Selector.ExactMatch != nil && hnID(m.Selector.ExactMatch.Name) == ev.obj.name {
+						n++
+						break
+					}
+				}
+			}
+			if n >= 2 {
+				fl.arrivesDoublyClaimed = true
+			}
+		}
 		if freesMany(before, ev) {
 			fl.amb = true
 		}
@@ -779,10 +797,11 @@ func laws(sel int, in, got []int64, law func(lsel int, lin []int64, sig string))
 		// only to the law the finding explains; 111/112 re-check everything D2 does not touch.
 		const d2 = "C14-D2-selector-members-of-non-leaf-hypernode-stale-after-node-event"
 		const d7 = "C14-D7-bad-membership-invisible-under-tier-inversion"
+		const d15 = "C14-D15-object-arriving-under-two-claimers-rebuilds-only-one"
 		pick := func(f flags, order ...string) string {
 			for _, sg := range order {
 				switch {
-				case sg == d2 && f.selStale, sg == d7 && f.tierInversion:
+				case sg == d2 && f.selStale, sg == d7 && f.tierInversion, sg == d15 && f.arrivesDoublyClaimed:
 					return sg
 				}
 			}
@@ -795,9 +814,9 @@ func laws(sel int, in, got []int64, law func(lsel int, lin []int64, sig string))
 		law(102, cat(eo, incr, fresh), pick(both, d2, d7))
 		law(112, cat(eo, incr, fresh), pick(both, d7))
 		law(105, cat(eo, incr), pick(fl, d7))
-		law(106, cat(eo, incr), pick(fl, d7))
+		law(106, cat(eo, incr), pick(fl, d7, d15))
 		law(101, cat(encEnv(w, nodes), eo, fresh), pick(ffl, d2, d7))
-		law(106, cat(eo, fresh), pick(ffl, d7))
+		law(106, cat(eo, fresh), pick(ffl, d7, d15))
 	case 3:
 		traceLaws(law)
 	case 2:
